@@ -36,13 +36,15 @@ pub struct Case {
     pub rc_mask: u16,
 }
 
-const SAMPLE_COUNTS: [usize; 8] = [2, 5, 19, 20, 21, 39, 40, 45];
+/// both sides of every threshold of the 10-samples-per-thread rule: 2 threads from 10, 4 from 30,
+/// 8 from 70 (merge recursion depth 3), 16 from 150 (depth 4)
+const SAMPLE_COUNTS: [usize; 14] = [2, 5, 9, 10, 29, 30, 31, 45, 69, 70, 72, 149, 150, 161];
 const KS: [usize; 5] = [15, 17, 21, 31, 33];
 const THREADS: [u8; 5] = [2, 3, 4, 8, 16];
 
 fn case_strategy() -> BoxedStrategy<Case> {
     (
-        0u8..8,
+        0u8..14,
         0u8..5,
         proptest::collection::vec(0u8..4, 150..400),
         proptest::collection::vec((any::<u16>(), 0u8..4, any::<u16>()), 1..12),
@@ -67,7 +69,7 @@ fn one_step(cmd: &Cmd) -> bool {
 
 fn materialise(c: &Case) -> (usize, Vec<u8>, Vec<Sample>) {
     let k = if one_step(&c.cmd) { 17 } else { KS[c.k_sel as usize % 5] };
-    let n = SAMPLE_COUNTS[c.n_sel as usize % 8];
+    let n = SAMPLE_COUNTS[c.n_sel as usize % 14];
     let anc = gen::bases_to_seq(&c.anc);
     let mut samples = Vec::new();
     for j in 0..n {
@@ -193,10 +195,12 @@ fn check(c: &Case, ctx: &Ctx) -> Outcome {
         }
         let base = run_cmd(ctx, &dir, c, k, &samples, 1, "t1")?;
         let mut runs: Vec<(String, Res)> = vec![("--threads 1 (repeated)".into(), run_cmd(ctx, &dir, c, k, &samples, 1, "t1r")?)];
-        for t in &c.threads {
+        // with >= 70 samples the deeper levels of the parallel merge need 8 / 16 threads
+        let threads: Vec<u8> = if samples.len() >= 150 { vec![16, c.threads[1]] } else if samples.len() >= 70 { vec![if c.threads[0] >= 8 { c.threads[0] } else { 8 }, c.threads[1]] } else { c.threads.clone() };
+        for t in &threads {
             runs.push((format!("--threads {t}"), run_cmd(ctx, &dir, c, k, &samples, *t, &format!("t{t}"))?));
         }
-        runs.push((format!("--threads {} (repeated)", c.threads[0]), run_cmd(ctx, &dir, c, k, &samples, c.threads[0], "tr")?));
+        runs.push((format!("--threads {} (repeated)", threads[0]), run_cmd(ctx, &dir, c, k, &samples, threads[0], "tr")?));
         for (what, res) in &runs {
             if *res != base {
                 if let (Res::Failed(_), Res::Failed(_)) = (&base, res) {
@@ -222,8 +226,10 @@ fn check(c: &Case, ctx: &Ctx) -> Outcome {
                 Cmd::MapOneStep { vcf: true } => "map_one_step_vcf",
                 Cmd::Distance => "distance",
             }];
-            if samples.len() >= 20 { cl.push(">=20_samples(parallel merge)"); }
-            let nt = samples.len() >= 20 || one_step(&c.cmd);
+            if samples.len() >= 10 { cl.push(">=10_samples(parallel merge)"); }
+            if samples.len() >= 70 { cl.push(">=70_samples(merge depth>=3)"); }
+            if samples.len() >= 150 { cl.push(">=150_samples(merge depth 4)"); }
+            let nt = samples.len() >= 10 || one_step(&c.cmd);
             pass(nt, key_of(&(c.cmd as Cmd, k, &samples, &c.threads)), cl)
         }
     }
@@ -492,13 +498,13 @@ fn post(rt: &mut Runtime) {
     }
 }
 
-const RULE: &str = "generated configurations: sample counts {2,5,19,20,21,39,40,45} (both sides of the 10-samples-per-thread rule), k in {15,17,21,31,33}, related genomes with shared SNPs, random orientation; one of build / align (skf, one-step) / map aln+vcf (skf, one-step `ska map ref.fa a.fa b.fa ...`) / distance; runs: --threads 1 (baseline), --threads 1 again (fresh process = fresh hash seeds), two thread counts from {2,3,4,8,16}, one repeated. Oracle vs baseline: byte-identical stdout for map and distance, same table for build (nk --full-info), same column multiset for align; success at 1 thread implies success at every count. Non-trivial: >= 20 samples or a one-step command.";
+const RULE: &str = "generated configurations: sample counts {2,5,9,10,29,30,31,45,69,70,72,149,150,161} (both sides of every threshold of the 10-samples-per-thread rule, i.e. parallel-merge recursion depths 0-4), k in {15,17,21,31,33}, related genomes with shared SNPs, random orientation; one of build / align (skf, one-step) / map aln+vcf (skf, one-step `ska map ref.fa a.fa b.fa ...`) / distance; runs: --threads 1 (baseline), --threads 1 again (fresh process = fresh hash seeds), two thread counts from {2,3,4,8,16}, one repeated. Oracle vs baseline: byte-identical stdout for map and distance, same table for build (nk --full-info), same column multiset for align; success at 1 thread implies success at every count. Non-trivial: >= 10 samples or a one-step command. With >= 70 (150) samples one of the thread counts is forced to >= 8 (16) so that the deeper merge levels run.";
 
 fn stages(tier: Tier) -> Vec<Box<dyn Stage>> {
     vec![
-        gen_stage_show("pipeline", RULE, tier.pick(160, 2400), 40, case_strategy, check, |c| { let (k, _a, s) = materialise(c); json!({"cmd": format!("{:?}", c.cmd), "k": k, "samples": s.len(), "threads": c.threads, "first_sample": lossy(&s[0].1[0])}) }),
-        gen_stage_show("lo_isolated", "C17's isolated-variant inputs (multi-allelic sites included), ska lo with and without -r, --threads 1 twice and two counts from {2,3,4,8}, one repeated. Oracle: with a reference snps.fas, snps.vcf and pseudo-genomes byte-identical; without, the same column multiset up to complement and the same names; indel records equal as a set after removing strand and REF/ALT presentation. Every case non-trivial.", tier.pick(160, 2400), 40, lo_strategy, check_lo, |c| json!({"k": c.inner.k, "with_ref": c.inner.with_ref, "threads": c.threads, "sites": c.inner.sites.len(), "samples": c.inner.n_samples})),
-        gen_stage_show("lo_overlapping", "overlapping-variant inputs (random substitutions/indels, close variants): run-to-run differences belong to the recorded finding lo-overlap-hash-order and are counted, not reported (reported as VIOLATION if known-findings.txt does not list it); the exit status must still not depend on the thread count.", tier.pick(96, 1200), 40, overlap_strategy, check_overlap, |c| json!({"k": c.inner.k, "with_ref": c.with_ref, "samples": c.inner.samples.len()})),
+        gen_stage_show("pipeline", RULE, tier.pick(320, 4000), 40, case_strategy, check, |c| { let (k, _a, s) = materialise(c); json!({"cmd": format!("{:?}", c.cmd), "k": k, "samples": s.len(), "threads": c.threads, "first_sample": lossy(&s[0].1[0])}) }),
+        gen_stage_show("lo_isolated", "C17's isolated-variant inputs (multi-allelic sites included), ska lo with and without -r, --threads 1 twice and two counts from {2,3,4,8}, one repeated. Oracle: with a reference snps.fas, snps.vcf and pseudo-genomes byte-identical; without, the same column multiset up to complement and the same names; indel records equal as a set after removing strand and REF/ALT presentation. Every case non-trivial.", tier.pick(320, 4000), 40, lo_strategy, check_lo, |c| json!({"k": c.inner.k, "with_ref": c.inner.with_ref, "threads": c.threads, "sites": c.inner.sites.len(), "samples": c.inner.n_samples})),
+        gen_stage_show("lo_overlapping", "overlapping-variant inputs (random substitutions/indels, close variants): run-to-run differences belong to the recorded finding lo-overlap-hash-order and are counted, not reported (reported as VIOLATION if known-findings.txt does not list it); the exit status must still not depend on the thread count.", tier.pick(160, 2000), 40, overlap_strategy, check_overlap, |c| json!({"k": c.inner.k, "with_ref": c.with_ref, "samples": c.inner.samples.len()})),
     ]
 }
 
